@@ -68,6 +68,10 @@ Variables (off old : Z) (data : list Z).
 Hypothesis Hoff : 0 <= off.
 Hypothesis Hold : 0 <= old.
 Hypothesis Hfit : off + old <= zlen f.
+(* the offset __update_offsets compares with: the region start for __save_existing, one less for the insertion of
+   __save_new (everything AT the insertion point moves too) *)
+Variable cmp : Z.
+Hypothesis Hcmp : off - 1 <= cmp.
 Let delta := zlen data - old.
 Let f1 := splice f off old data.
 
@@ -78,7 +82,7 @@ Let stcos := mp4_stco_list atoms.
 Let co64s := mp4_co64_list atoms.
 Let tfhds := mp4_tfhd_list atoms.
 (* every table lies entirely before the region, or behind it and strictly behind its start *)
-Definition placed (T : mp4_atom) : Prop := ma_off T + ma_len T <= off \/ (off + old <= ma_off T /\ off < ma_off T).
+Definition placed (T : mp4_atom) : Prop := ma_off T + ma_len T <= off \/ (off + old <= ma_off T /\ cmp < ma_off T).
 Hypothesis Hplaced : Forall placed (stcos ++ co64s ++ tfhds).
 
 Lemma zlen_f1 : zlen f1 = zlen f + delta.
@@ -92,11 +96,11 @@ Proof.
   - assert (a + n <= off) by lia. apply agree_splice_before; lia.
 Qed.
 
-Lemma placed_moved T : placed T -> 8 <= ma_len T -> mp4_moved off delta (ma_off T) = mv (ma_off T).
+Lemma placed_moved T : placed T -> 8 <= ma_len T -> mp4_moved cmp delta (ma_off T) = mv (ma_off T).
 Proof.
   unfold placed, mp4_moved, mv. intros [H|(H1 & H2)] Hl.
-  - destruct (ma_off T >? off) eqn:E1; [lia|]. destruct (off + old <=? ma_off T) eqn:E2; [lia|]. reflexivity.
-  - destruct (ma_off T >? off) eqn:E1; [|lia]. destruct (off + old <=? ma_off T) eqn:E2; [|lia]. reflexivity.
+  - destruct (ma_off T >? cmp) eqn:E1; [lia|]. destruct (off + old <=? ma_off T) eqn:E2; [lia|]. reflexivity.
+  - destruct (ma_off T >? cmp) eqn:E1; [|lia]. destruct (off + old <=? ma_off T) eqn:E2; [|lia]. reflexivity.
 Qed.
 
 (* facts about one member of the table lists *)
@@ -257,13 +261,13 @@ Proof.
 Qed.
 
 (* ================================================================== phase 2: offset tables and tfhd *)
-Definition nlo (T : mp4_atom) : Z := mp4_moved off delta (ma_off T).
+Definition nlo (T : mp4_atom) : Z := mp4_moved cmp delta (ma_off T).
 Lemma nlo_mv T : tab_member T -> nlo T = mv (ma_off T).
 Proof. intros (_ & P & _ & _ & L & _). apply placed_moved; assumption. Qed.
 
 Definition tab_updated (w : nat) (g : list Z) (T : mp4_atom) : Prop :=
   agree f (ma_off T) g (mv (ma_off T)) 16 /\
-  tab_entries w g (mv (ma_off T)) = map (mp4_shift off delta) (tab_entries w f (ma_off T)).
+  tab_entries w g (mv (ma_off T)) = map (mp4_shift cmp delta) (tab_entries w f (ma_off T)).
 
 Lemma mv_bounds T : tab_member T -> 0 <= mv (ma_off T) /\ mv (ma_off T) + ma_len T <= zlen f1.
 Proof.
@@ -279,7 +283,7 @@ Lemma table_phase (w : nat) l : (0 < w)%nat -> forall g g',
   Forall tab_member l -> NoDup l -> Forall (fun T => mp4_table_ok f (Z.of_nat w) T = true) l ->
   zlen g = zlen f1 ->
   (forall T, In T l -> agree f (ma_off T) g (mv (ma_off T)) (ma_len T)) ->
-  mp4_fold_atoms (mp4_update_table w delta off) g l = Ok g' ->
+  mp4_fold_atoms (mp4_update_table w delta cmp) g l = Ok g' ->
   zlen g' = zlen g /\
   (forall a n, 0 <= a -> a + n <= zlen g -> (forall T, In T l -> clear_of a n (mv (ma_off T) + 16) (mv (ma_off T) + ma_len T)) ->
                agree g a g' a n) /\
@@ -287,7 +291,7 @@ Lemma table_phase (w : nat) l : (0 < w)%nat -> forall g g',
 Proof.
   intros Hw g g' Hmem Hnd Hok Hlen Hag H.
   set (pre := fun T => 0 <= nlo T /\ 12 <= ma_len T).
-  assert (Hframe : forall g0 a g1, pre a -> mp4_update_table w delta off g0 a = Ok g1 ->
+  assert (Hframe : forall g0 a g1, pre a -> mp4_update_table w delta cmp g0 a = Ok g1 ->
                      frame_in (nlo a + 16) (nlo a + ma_len a) g0 g1).
   { intros g0 a g1 (P1 & P2) E. unfold nlo in *. apply update_table_frame with (w := w); assumption. }
   assert (Hpre : Forall pre l).
@@ -309,7 +313,7 @@ Proof.
     + rewrite (nlo_mv T M) in *.
       assert (AF : agree f (ma_off T) g1 (mv (ma_off T)) (ma_len T)) by (eapply agree_trans; [apply Hag; exact HT|exact A1]).
       destruct (tab_entries_agree w _ _ _ _ _ AF C0 ltac:(lia)) as (TE1 & TC1).
-      pose proof (update_table_spec w delta off g1 T g2 Hw) as SP. cbv zeta in SP. fold (nlo T) in SP.
+      pose proof (update_table_spec w delta cmp g1 T g2 Hw) as SP. cbv zeta in SP. fold (nlo T) in SP.
       rewrite (nlo_mv T M) in SP. rewrite <- TC1 in SP.
       (* the 16 leading bytes are not written *)
       assert (A12 : agree g1 (mv (ma_off T)) g2 (mv (ma_off T)) 16).
@@ -329,18 +333,18 @@ Definition tfhd_updated (g : list Z) (T : mp4_atom) : Prop :=
   agree f (ma_off T) g (mv (ma_off T)) 12 /\
   (tfhd_flag f (ma_off T) = false -> agree f (ma_off T) g (mv (ma_off T)) (ma_len T)) /\
   (tfhd_flag f (ma_off T) = true ->
-     tfhd_base g (mv (ma_off T)) = mp4_shift off delta (tfhd_base f (ma_off T)) /\
+     tfhd_base g (mv (ma_off T)) = mp4_shift cmp delta (tfhd_base f (ma_off T)) /\
      agree f (ma_off T) g (mv (ma_off T)) 16 /\
      agree f (ma_off T + 24) g (mv (ma_off T) + 24) (ma_len T - 24)).
 
-Lemma shift_gt o : (if o >? off then o + delta else o) = mp4_shift off delta o.
-Proof. unfold mp4_shift. destruct (o >? off) eqn:A, (off <? o) eqn:B; lia. Qed.
+Lemma shift_gt o : (if o >? cmp then o + delta else o) = mp4_shift cmp delta o.
+Proof. unfold mp4_shift. destruct (o >? cmp) eqn:A, (cmp <? o) eqn:B; lia. Qed.
 
 Lemma tfhd_phase l : forall g g',
   Forall tab_member l -> NoDup l -> Forall (fun T => mp4_tfhd_ok f T = true) l ->
   zlen g = zlen f1 ->
   (forall T, In T l -> agree f (ma_off T) g (mv (ma_off T)) (ma_len T)) ->
-  mp4_fold_atoms (mp4_update_tfhd delta off) g l = Ok g' ->
+  mp4_fold_atoms (mp4_update_tfhd delta cmp) g l = Ok g' ->
   zlen g' = zlen g /\
   (forall a n, 0 <= a -> a + n <= zlen g -> (forall T, In T l -> clear_of a n (mv (ma_off T) + 16) (mv (ma_off T) + ma_len T)) ->
                agree g a g' a n) /\
@@ -348,7 +352,7 @@ Lemma tfhd_phase l : forall g g',
 Proof.
   intros g g' Hmem Hnd Hok Hlen Hag H.
   set (pre := fun T => 0 <= nlo T /\ 9 <= ma_len T).
-  assert (Hframe : forall g0 a g1, pre a -> mp4_update_tfhd delta off g0 a = Ok g1 ->
+  assert (Hframe : forall g0 a g1, pre a -> mp4_update_tfhd delta cmp g0 a = Ok g1 ->
                      frame_in (nlo a + 16) (nlo a + ma_len a) g0 g1).
   { intros g0 a g1 (P1 & P2) E. unfold nlo in *. apply update_tfhd_frame; assumption. }
   assert (Hpre : Forall pre l).
@@ -371,7 +375,7 @@ Proof.
       assert (AF : agree f (ma_off T) g1 (mv (ma_off T)) (ma_len T)) by (eapply agree_trans; [apply Hag; exact HT|exact A1]).
       assert (FL : tfhd_flag f (ma_off T) = tfhd_flag g1 (mv (ma_off T))) by (apply (tfhd_flag_agree _ _ _ _ _ AF); lia).
       change (mp4_tfhd_flag f T) with (tfhd_flag f (ma_off T)) in C24.
-      pose proof (update_tfhd_spec delta off g1 T g2) as SP. cbv zeta in SP. fold (nlo T) in SP.
+      pose proof (update_tfhd_spec delta cmp g1 T g2) as SP. cbv zeta in SP. fold (nlo T) in SP.
       rewrite (nlo_mv T M) in SP. rewrite <- FL in SP.
       destruct (SP ltac:(lia) C12 C24 ltac:(lia) S) as (FL2 & SF & ST).
       assert (FR : frame_in (mv (ma_off T) + 16) (mv (ma_off T) + ma_len T) g1 g2).
@@ -466,7 +470,7 @@ Qed.
 
 Variables (f2 f' : list Z).
 Hypothesis Hrun1 : mp4_update_parents delta f1 (map ma_off As) = Ok f2.
-Hypothesis Hrun2 : mp4_update_offsets atoms delta off f2 = Ok f'.
+Hypothesis Hrun2 : mp4_update_offsets atoms delta cmp f2 = Ok f'.
 
 Definition all_tabs : list mp4_atom := stcos ++ co64s ++ tfhds.
 
@@ -550,8 +554,8 @@ Proof.
     assert (E0 : (delta =? 0) = false) by (apply Z.eqb_neq; exact DN). rewrite E0 in Hrun1, Hrun2.
     destruct (mp4_child N_moov atoms) as [moov|] eqn:Em; [|discriminate].
     fold stcos co64s tfhds in Hrun2.
-    destruct (mp4_fold_atoms (mp4_update_table 4 delta off) f2 stcos) as [g3|] eqn:R3; [|discriminate].
-    destruct (mp4_fold_atoms (mp4_update_table 8 delta off) g3 co64s) as [g4|] eqn:R4; [|discriminate].
+    destruct (mp4_fold_atoms (mp4_update_table 4 delta cmp) f2 stcos) as [g3|] eqn:R3; [|discriminate].
+    destruct (mp4_fold_atoms (mp4_update_table 8 delta cmp) g3 co64s) as [g4|] eqn:R4; [|discriminate].
     destruct (parents_fold As f1 f2 HAs HAs_nd eq_refl Hanc1 Hrun1) as (Z2 & Fr2 & U2).
     (* members' extents survive the ancestors' patches *)
     assert (AG2 : forall T, tab_member T -> agree f (ma_off T) f2 (mv (ma_off T)) (ma_len T)).
